@@ -102,6 +102,11 @@ impl Compound {
 
     /// Update the power of the given unit.
     pub fn update_power(&mut self, unit: Unit, power: i32) {
+        if power == 0 {
+            self.names.remove(&unit);
+            return;
+        }
+
         if let Some(state) = self.names.get_mut(&unit) {
             state.power = power;
         }
